@@ -12,7 +12,10 @@ RULE = ("Each case is one simulated history of the real scheduler (lattice engin
         "completion order / duration model, optionally with crashes and restarts. Distinct = distinct "
         "completion-order signature (sequence of (ensembles of the completing job, set of busy "
         "ensembles)) plus exit pattern; non-trivial = at least two jobs overlapped in flight, or a "
-        "fault fired, or the history has more than one incarnation.")
+        "fault fired, or the history has more than one incarnation. Every fourth case belongs to an "
+        "enumeration of small systems: (3 ens, 2 workers), (4, 3), (4, 2) x 6 steps: case j runs the j-th "
+        "completion sequence (which in-flight job completes next, base-w digits) for one of 6 config seeds / "
+        "move mixes, so a long enough run covers all w^5 orders of each.")
 ASSUMPTIONS = [
     "jobs are isolated processes: executing run_md on a pickled copy at submission time is "
     "observationally equivalent for the main process",
@@ -28,6 +31,26 @@ def budget(tier):
 
 def make_case(seed, i, tier):
     rng = random.Random(seed)
+    if i % 4 == 0:
+        # small systems: the completion order is enumerated, not sampled - case index j runs the
+        # j-th binary/ternary completion sequence for one of a few config seeds and move mixes
+        j = i // 4
+        variants = [(3, 2), (4, 3), (4, 2), (3, 2)]
+        n_intf, w = variants[j % len(variants)]
+        j //= len(variants)
+        steps = 6
+        nseq = w ** (steps - 1)
+        seq, cfg = j % nseq, (j // nseq) % 6
+        digits = []
+        for _ in range(steps - 1):
+            digits.append(seq % w)
+            seq //= w
+        scn = SC.gen_scenario(random.Random(cfg), {"n_intf": n_intf, "workers": w, "steps": steps,
+                                                   "order_model": "random", "maxlength": 40,
+                                                   "config_seed": cfg, "wf_p": [0.0, 0.5, 1.0][cfg % 3]})
+        scn["plan"] = [{"steps": steps}]
+        return {"seed": seed, "scn": scn, "props": [PROP], "enumerated": True,
+                "decisions": [["i0.complete", d] for d in digits]}
     small = rng.random() < 0.6
     prof = {"n_intf_choices": [2, 3, 3, 4] if small else [4, 5, 6, 8],
             "steps_choices": [4, 6, 8, 12] if small else [16, 24, 40],
